@@ -28,7 +28,8 @@ class Gen:
                   "section_order": 0.2, "subgroups": 0.25, "group": 0.25, "toplevel": 0.5,
                   "custom_lists": 0.3, "paths": 0.3, "settings": 0.15, "single": 0.12, "partial": 0.3,
                   "align": 0.3, "gp": 0.2, "max_segments": 5, "max_files": 5, "max_depth": 3,
-                  "dup_opts": 0.1, "makerom": 0.3, "tail": 0.3, "dpath": 0.4, "header": 0.3, "linkable": False}
+                  "dup_opts": 0.1, "makerom": 0.3, "tail": 0.3, "dpath": 0.4, "header": 0.3, "linkable": False,
+                  "addr_class": 0.2, "class_keep": 0.2, "cross_pool": 0.12}
         if profile:
             self.p.update(profile)
 
@@ -49,6 +50,8 @@ class Gen:
 
     # ---- options
     def options(self):
+        if self.r.random() < 0.07:
+            return []                                  # the empty option set
         keys = [k for k in OPT_KEYS if self.r.random() < 0.85]
         self.r.shuffle(keys)
         opts = [(k, self.pick(OPT_VALS)) for k in keys]
@@ -137,6 +140,8 @@ class Gen:
             sections = [".text"]
         s["files"] = [self.file_entry(sections, 0) for _ in range(self.r.randint(1, self.p["max_files"]))]
         a = self.r.random()
+        if classes and self.r.random() < self.p["addr_class"]:
+            a = 0.6
         if a < 0.3:
             s["fixed_vram"] = self.pick([0x80000400, 0x80000460, 0x05000000, 0] +
                                         ([0x80200000] if self.p["linkable"] else [0xFFFFFFF0]))
@@ -227,8 +232,12 @@ class Gen:
             st["partial_build_segments_folder"] = self.path(["segments", "seg_{version}"], 1)
         if self.chance("custom_lists"):
             st["alloc_sections"] = self.subset(ALLOC_POOL, 1, 4)
+            if self.chance("cross_pool"):
+                st["alloc_sections"].append(self.pick(NOLOAD_POOL))
         if self.chance("custom_lists"):
             st["noload_sections"] = self.subset(NOLOAD_POOL, 0, 3)
+            if self.chance("cross_pool"):
+                st["noload_sections"].append(self.pick(ALLOC_POOL))
         if self.chance("settings"):
             secs = st.get("alloc_sections", [".text", ".data", ".rodata", ".sdata"]) + \
                 st.get("noload_sections", [".sbss", ".scommon", ".bss", "COMMON"])
@@ -248,7 +257,9 @@ class Gen:
             else:
                 c["follows_classes"] = self.subset(names[:i], 1, 2) if self.r.random() < 0.9 else \
                     self.subset(names, 1, 2)
-            self.keep(c, [".text", ".data", ".bss"])
+            if self.r.random() < self.p["class_keep"]:
+                k = self.r.randrange(3)
+                c["keep_sections"] = True if k == 0 else False if k == 1 else self.subset([".text", ".data", ".bss", ".rodata"], 0, 3)
             out.append(c)
         return out
 
@@ -303,7 +314,8 @@ class Gen:
                 doc["vram_classes"] = cl
                 cls = [c["name"] for c in cl]
         nseg = 1 if (single and self.r.random() < 0.9) else self.r.randint(1, self.p["max_segments"])
-        names = self.r.sample(SEG_NAMES, nseg)
+        pool = SEG_NAMES if self.p["linkable"] else SEG_NAMES + ["ovl.title", "ovl.select", "a-b", "seg.x.y"]
+        names = self.r.sample(pool, nseg)
         doc["segments"] = [self.segment(n, names, cls, gs) for n in names]
         self.toplevel(doc)
         return doc
